@@ -250,8 +250,9 @@ def observe_hist(case):
 
 # ---------------------------------------------------------------------------------------------------------------
 # edited custom registry (NamesEdit.tla)
-EDIT_PROBES = ["pc", "parsec", "kpc", "kiloparsec", "Kiloparsec", "Mpc", "ft", "foot", "kft", "foo", "kfoo", "Mfoo", "quux"]
-EDIT_DERIVED = ["kpc", "Mpc", "kft", "kfoo", "Mfoo"]
+EDIT_PROBES = ["pc", "parsec", "kpc", "kiloparsec", "Kiloparsec", "Mpc", "ft", "foot", "kft", "foo", "kfoo", "Mfoo", "quux", "pccm", "Mpccm", "a", "ka", "mcm", "kmcm"]
+EDIT_DERIVED = ["kpc", "Mpc", "kft", "kfoo", "Mfoo", "Mpccm", "ka", "kmcm"]
+EDIT_TOUCHED_DEFAULTS = ("pc", "ft")  # default symbols the histories edit: names built on them are judged by the probes, not by the sweep
 
 
 def _edit_den(u):
@@ -335,6 +336,19 @@ def _edit_prime():
         return
     U["edit_primed"] = True
     from unyt import dimensions
+
+    # reference for the sweep: what every documented symbol-level name denotes in the unedited default registry
+    sweep = {}
+    lut = U["lut"]
+    names = [s for s in lut if s not in EDIT_TOUCHED_DEFAULTS]
+    names += [p + s for s in lut if lut[s][4] and s not in EDIT_TOUCHED_DEFAULTS for p in U["prefixes"]]
+    for n in names:
+        try:
+            u = U["Unit"](n)
+            sweep[n] = (float(u.base_value), u.dimensions, float(u.base_offset))
+        except Exception:  # noqa: BLE001
+            pass
+    U["edit_sweep"] = sweep
 
     ra = U["UnitRegistry"]()
     ra.remove("ft")
@@ -449,4 +463,26 @@ def _observe_edit(case, reg, default):
     final["nsok"] = ok
     final["nsexc"] = exc
     final["ns"] = nsobs
+    # sweep (last: it fills the table with derived rows): documented names on untouched base symbols
+    bad = []
+    full = len(case["h"]) <= 2  # longer histories (thorough tier): only the rows present in the table are compared (no parsing)
+    for n, (bv, dm, off) in U["edit_sweep"].items():
+        try:
+            if full:
+                u = mkunit(n)
+                got = (float(u.base_value), u.dimensions, float(u.base_offset))
+            else:
+                row = reg.lut.get(n)
+                if row is None:
+                    continue
+                got = (float(row[0]), row[1], float(row[2]))
+            same = got[1] == dm and got[2] == off and abs(got[0] - bv) <= 4.5e-16 * abs(bv)
+            gs = repr(got[0]) + " " + str(got[1])
+        except Exception as e:  # noqa: BLE001
+            same, gs = False, type(e).__name__
+        if not same and len(bad) < 8:
+            bad.append({"name": n, "got": gs, "want": repr(bv) + " " + str(dm)})
+    final["sweepbad"] = bad
+    final["sweepn"] = len(U["edit_sweep"])
+    final["sweepfull"] = full
     return {"kind": "default" if default else "custom", "ev": ev, "final": final}
